@@ -163,3 +163,11 @@ Print Assumptions C14_source_read_objects_arrays.
 Example C14_arr_spec_failures : map (fun k => match arr_spec k [0; 0; 0; 0; 1; 97; 1; 98]%Z [] SBDF_STRINGTYPEID 2 1 with EErr st => st | EOk _ _ _ _ => 0%Z end) [0; 1; 2; 3; 4]%Z
                                 = [SBDF_ERROR_OUT_OF_MEMORY; SBDF_ERROR_OUT_OF_MEMORY; SBDF_ERROR_OUT_OF_MEMORY; SBDF_ERROR_OUT_OF_MEMORY; 0]%Z.
 Proof. vm_compute. reflexivity. Qed.
+
+(* the third allocation of a sbdf_va_read fails (handle, object header, data block): run on the translated program *)
+Example C14_source_va_read_third_allocation_fails :
+  match callC prog_env 2000 prog_sbdf_va_read [tok; tok] [] 2 [1;2; 2;0;0;0; 5;0;0;0; 7;0;0;0; 99] [] with
+  | OReturn v s => (v, Imp.lookup "*handle" (vars s), Imp.lookup cells_var (vars s), inb s) = (VInt SBDF_ERROR_OUT_OF_MEMORY, Some VNull, Some (VHeap [None; None]), [])
+  | _ => False
+  end.
+Proof. vm_compute. reflexivity. Qed.
